@@ -268,6 +268,25 @@ def run_qc_check(ctx, spec):
     for fn in spec.get("extra", []):
         fn(ctx, rec)
     owned = judge(ctx, rec, "qc")
+    # vacuity guard (TLC's -coverage is unusable on these specs: a 4 s instance took > 5 min with it): every test
+    # and every relation kind the plan names must actually occur among the executed events
+    by_fn, by_rel = {}, {}
+    for e in rec.events:
+        by_fn[e["call"]["fn"]] = by_fn.get(e["call"]["fn"], 0) + 1
+        by_rel[e["rel"]["kind"]] = by_rel.get(e["rel"]["kind"], 0) + 1
+    ctx.cov["events_by_test"] = by_fn
+    ctx.cov["events_by_relation"] = by_rel
+    want_fns = set()
+    want_rels = set()
+    for m in spec.get("mc", {}).get(ctx.tier, []):
+        if m["budget"][tier] > 0:
+            want_fns |= set(m["fns"])
+            want_rels |= set(m["rels"])
+    if spec.get("random"):
+        want_fns |= set(spec["random"]["fns"])
+    missing = sorted(want_fns - set(by_fn)) + sorted(want_rels - set(by_rel))
+    if missing:
+        raise tlc.MachineryError("vacuous run: nothing exercised for %s" % missing)
     # samples for the evidence file
     for e in rec.events[:: max(1, len(rec.events) // 6)][:6]:
         ctx.samples.append({"call": e["call"], "rel": e["rel"], "observed": e["obs"]["out"], "exc": e["obs"]["exc"],
